@@ -26,7 +26,7 @@
 namespace celeritas
 {
 //---------------------------------------------------------------------------//
-ScopedMpiInit::Status ScopedMpiInit::status_
+std::atomic<ScopedMpiInit::Status> ScopedMpiInit::status_
     = ScopedMpiInit::Status::uninitialized;
 
 //---------------------------------------------------------------------------//
